@@ -61,6 +61,7 @@ def run(p: Project, tier: str) -> Result:
     check_machine_groups(p, r)
     for w in ws:
         check_thread_state_pairing(w, r)
+        check_blocked_before_out_wait(w, r)
     return r
 
 
@@ -103,6 +104,44 @@ def check_thread_state_pairing(w, r):
             r.ok('C17.R7', key, 'classification recomputed before the next suspension on every path', src(e.fi.module), e.line)
         else:
             r.fail('C17.R7', key, rec['why'], src(e.fi.module), e.line, rec['pa'].describe())
+
+
+def check_blocked_before_out_wait(w, r):
+    """R8: a worker thread that is about to wait for room downstream (a put reservation, any_of over put reservations, or its push process)
+    carries thread_state == BLOCKED_STATE at that suspension on every path - including paths on which a loop that usually sets it runs
+    zero times (an empty pallet).  Otherwise the wait is charged to PROCESSING."""
+    if not any(m in w.methods for m in REFRESH) or 'worker' not in w.roots:
+        return
+    r.rule('C17.R8', 'a worker thread is marked BLOCKED_STATE at every suspension that waits for room downstream', 6)
+    sites = {}
+    for pa in w.roots['worker']:
+        if pa.raises:
+            continue
+        cur = 'PROCESSING_STATE'        # set by the spawner right after env.process(self.worker(...))
+        put_lists = set()
+        put_waits = set()
+        for e in pa.events:
+            if e.kind == 'setattr' and e.attr == 'thread_state' and e.target.startswith('self.env.active_process'):
+                cur = e.value[1] if e.value and e.value[0] == 'const' else '?'
+            elif e.kind == 'pcall' and e.name == 'reserve_put':
+                (put_lists if e.over is not None else put_waits).add(e.result)
+            elif e.kind == 'xcall' and e.name.endswith('any_of') and e.args and e.args[0] in put_lists:
+                put_waits.add(e.result)
+            elif e.kind == 'spawn' and '_push_item' in e.func:
+                put_waits.add(e.result)
+            elif e.kind == 'yield' and e.value in put_waits:
+                key = site(e.fi, e.node, 'blocked-before-out-wait')
+                rec = sites.setdefault(key, {'ok': True, 'e': e, 'pa': pa, 'why': ''})
+                if cur != 'BLOCKED_STATE' and rec['ok']:
+                    rec.update(ok=False, pa=pa, why=f'the worker waits for room downstream (`{e.text}`) while its thread_state is still {cur}: on this path nothing marked it '
+                                                    f'BLOCKED_STATE (a loop that usually does may run zero times), so the wait is charged to the processing state')
+    for key, rec in sorted(sites.items()):
+        e = rec['e']
+        r.analysed_functions.add(e.fi.key)
+        if rec['ok']:
+            r.ok('C17.R8', key, 'BLOCKED_STATE on every path reaching this wait', src(e.fi.module), e.line)
+        else:
+            r.fail('C17.R8', key, rec['why'], src(e.fi.module), e.line, rec['pa'].describe())
 
 
 def ts_key(e, changed):
